@@ -42,14 +42,27 @@ EXCLUDED = {
 }
 del EXCLUDED['abel.tools.math.guss_gaussian']
 
+# Callables for which the alias analysis cannot establish `safe_args` although no
+# write into an argument exists (the dynamic runs cover them): the reason is
+# stated; each is listed by name in the theorem safe_all_public.
+ALIAS_UNPROVED_ARGS = {
+    'abel.rbasex.rbasex_transform':
+        'the module-level cache keeps a reference to the caller\'s `weights` array (rbasex._weights and the cached '
+        'Distributions object); the analysis has one undifferentiated cache, whose other arrays are written in place',
+    'abel.transform.Transform':
+        'calls rbasex_transform with **transform_options (may contain `weights`): same reason',
+}
+
 _TO = "verbose=False, basis_dir=None"
 
 SPECS = {
     # ------------------------------------------------------------ transforms
     'abel.basex.basex_transform': dict(arrays=['data'], calls=[
         "abel.basex.basex_transform(A.half(9, 11, label='data'), sigma=1.0, %s)" % _TO,
-        "abel.basex.basex_transform(A.half(8, 12, label='data'), sigma=1.5, reg=2.0, correction=False, direction='forward', %s)" % _TO,
+        "abel.basex.basex_transform(A.half(8, 12, label='data'), sigma=1.5, reg=2.0, correction=False, direction='forward', dr=0.5, %s)" % _TO,
         "abel.basex.basex_transform(A.half(1, 10, label='data')[0], %s)" % _TO]),
+    'abel.basex.basex_core_transform': dict(arrays=['rawdata', 'A'], calls=[
+        "abel.basex.basex_core_transform(A.half(9, 11, label='rawdata'), A.rand(11, 11, label='A'))"]),
     'abel.basex.get_bs_cached': dict(cache_accessor=True, arrays=[], calls=[
         "abel.basex.get_bs_cached(9, sigma=1.0, reg=1.0, %s)" % _TO]),
     'abel.basex.get_basex_correction': dict(arrays=['A'], calls=[
